@@ -181,12 +181,11 @@ Definition C40_mismatch (c : c40_case) : bool :=
     negb (state_eqb st' o_st && cursor_eqb cu' o_cu && Bool.eqb did o_did && result_eqb res o_res)
   | C40Merge p s o =>
     match o with
-    | None => negb (merge_panics p s)
+    | None => true
     | Some o =>
       let m := mergeMessageEventTerminalPayload p s in
-      merge_panics p s
-      || negb (tview_eqb m o && Bool.eqb (p_hassnap m) (p_hassnap o) && Bool.eqb (p_obj m) (p_obj o)
-               && (if is_empty (s_raw s) then bytes_eqb (p_raw m) (p_raw o) else true))
+      negb (tview_eqb m o && Bool.eqb (p_hassnap m) (p_hassnap o) && Bool.eqb (p_obj m) (p_obj o)
+            && (if is_empty (s_raw s) then bytes_eqb (p_raw m) (p_raw o) else true))
     end
   | C40Meta steps => meta_mismatch db_empty steps
   | C40Node max_sessions hs_count chan_hs steps => node_mismatch (node_init max_sessions chan_hs hs_count) steps
@@ -405,29 +404,9 @@ Definition finish_monitor (g : DB) (chan_hs : list (bytes * N)) (cache : list Ca
     end
   end.
 
-(* a call that panicked: violation, except known-finding signature 3 — a terminal
-   event (close, error, cancel, finish) whose non-empty payload is the JSON
-   literal null while the cache holds a non-empty snapshot to merge into it
-   (the lane of the event; for finish: some open lane) *)
-Definition json_null_payload (p : Payload) : bool :=
-  negb (is_empty (p_raw p)) && bytes_eqb (p_canon p) json_null.
-
+(* a call that panicked (recovered by the harness): violation *)
 Definition panic_monitor (cache : list CacheDump) (e : Event) (obs : NodeObs) : N :=
-  match no_err obs with
-  | EPanic =>
-    match normalizeMessageEventAppend e with
-    | None => 1
-    | Some ne =>
-      let lanes := cache_lanes cache (e_channel ne) (e_ctype ne) (e_msgno ne) in
-      let has_snapshot (s : State) := negb (is_empty (s_raw (st_snap s))) in
-      if isMessageEventTerminalEvent (e_etype ne) && json_null_payload (e_payload ne)
-         && (if bytes_eqb (e_etype ne) EventTypeStreamFinish
-             then existsb has_snapshot (filter open_lane lanes)
-             else existsb (fun s => bytes_eqb (st_key s) (e_key ne) && has_snapshot s) lanes)
-      then 3 else 1
-    end
-  | _ => 0
-  end.
+  match no_err obs with EPanic => 1 | _ => 0 end.
 
 (* the durable append calls recorded in the proposals of one step *)
 Definition proposal_calls (chan_hs : list (bytes * N)) (props : list Proposal) : list (N * Event * (Err * option Result)) :=
@@ -473,12 +452,7 @@ Definition C40_monitor (c : c40_case) : N :=
   match c with
   | C40Reduce st st_exists cu cu_exists e o_st o_cu o_did o_res =>
     reduce_monitor st st_exists cu cu_exists e o_st o_cu o_did o_res
-  | C40Merge p s o =>
-    (* a panic is a violation; known-finding signature 3: payload is the JSON literal null and the snapshot is non-empty *)
-    match o with
-    | Some _ => 0
-    | None => if negb (is_empty (s_raw s)) && negb (is_empty (p_raw p)) && bytes_eqb (p_canon p) json_null then 3 else 1
-    end
+  | C40Merge p s o => match o with Some _ => 0 | None => 1 end     (* a panic is a violation *)
   | C40Meta steps => meta_monitor db_empty steps
   | C40Node _ _ chan_hs steps => node_monitor db_empty chan_hs [] steps
   end.
